@@ -105,7 +105,7 @@ func init() {
 			}
 			out = append(out, sp("C13", "enum/nilhash/exact", seed, P("hash", "nil", "sum", "exact", "size", "10")))
 			out = append(out, sp("C13", "enum/nilhash/empty", seed, P("hash", "nil", "sum", "empty", "size", "10")))
-			for _, f := range []string{"missing", "eio:0", "eio:5", "eio:4096", "short:1", "short:7", "empty-file"} {
+			for _, f := range []string{"missing", "eio:0", "eio:5", "eio:4096", "eio:8999", "short:1", "short:7", "empty-file"} {
 				for _, sum := range []string{"exact", "other"} {
 					out = append(out, sp("C13", fmt.Sprintf("fault/%s/%s", f, sum), seed, P("hash", "sha256", "sum", sum, "size", "9000", "fsfault", f)))
 				}
@@ -446,6 +446,29 @@ func runC13(r *h.Run) {
 	}
 	_ = plugins.Handshake
 	r.DoNoHang("Kill", 120*time.Second, ctx, func() (any, error) { cl.Kill(); return nil, nil })
+	// a transient read error, then the same SecureConfig value is used again
+	// once the file reads fine: what the failed attempt left behind must not
+	// decide the second one
+	if strings.HasPrefix(fsf, "eio:") && readFails && !spawned {
+		node.ReadErrAt = -1
+		rctx := ctx + " retry-after-read-error"
+		wantRetry := matches && hn != "nil" && len(sum) > 0
+		cfg2 := r.ClientConfig(c)
+		cfg2.Cmd = simexec.Command(c.Path)
+		cfg2.Cmd.SimName = "plugin2"
+		cfg2.SecureConfig = cfg.SecureConfig
+		cl2 := plugin.NewClient(cfg2)
+		o2 := r.DoNoHang("Start(retry)", 90*time.Second, rctx, func() (any, error) { return cl2.Start() })
+		spawned2 := w.ProcByName("plugin2") != nil
+		w.Probe("retry-after-read-error")
+		switch {
+		case spawned2 && !wantRetry:
+			r.Violate("ran-unverified-binary", rctx, fmt.Sprintf("after a failed read the same SecureConfig let a file run whose digest does not match (err %v)", o2.Err))
+		case !spawned2 && wantRetry:
+			r.Violate("refused-verified-binary", rctx, fmt.Sprintf("after a failed read (healed since) the same SecureConfig refused the matching file: %v", o2.Err))
+		}
+		r.DoNoHang("Kill(retry)", 120*time.Second, rctx, func() (any, error) { cl2.Kill(); return nil, nil })
+	}
 	// the same SecureConfig value used for a second client (a host that launches
 	// the same verified binary again)
 	if sc := r.Spec.P("shared", ""); sc != "" && wantSpawn && spawned {
